@@ -197,11 +197,14 @@ func runStr(c *lib.Ctx, cs caseT) {
 	c.PredChecked()
 	what := func(f string, a ...interface{}) string { return fmt.Sprintf("%s(%q): ", opNames[cs.Op], s) + fmt.Sprintf(f, a...) }
 	if o.panic != "" {
-		// C32 states no crash clause: a panic of Unquote / UnquoteBytes on arbitrary input is recorded for the model
-		// (which mirrors it) and belongs to C10; only a panic of Quote breaks the law UNQUOTE(QUOTE(s)) = s
+		// Since d9436d51b neither Quote nor Unquote panics on any input (C32_unquote_never_panics); a returning panic
+		// of Quote or Unquote (JSON_QUOTE / JSON_UNQUOTE) is reported with its input.  UnquoteBytes has no caller in
+		// /repo: its panics are left to the correspondence (the model has no panic outcome).
 		c.Count("panic_shape_" + crashShape(s, cs.Op == 2))
 		if cs.Op == 0 {
 			c.PredFail(id, "quote-panics", what("%s", o.panic), cs)
+		} else if cs.Op == 1 {
+			c.PredFail(id, "panic/Unquote/"+crashShape(s, false), what("%s", o.panic), cs)
 		}
 		return
 	}
@@ -735,10 +738,12 @@ func main() {
 		}
 		hx := func(s string) string { return hex.EncodeToString([]byte(s)) }
 		corpus := []caseT{
-			{Kind: "str", Op: 1, S: hx(`\u123`)},   // known: slice s[i+1:i+5] out of range
-			{Kind: "str", Op: 1, S: hx(`\ud800`)},  // known: RuneLen = -1
+			{Kind: "str", Op: 1, S: hx(`\u123`)},   // panicked before d9436d51b (slice s[i+1:i+5] out of range)
+			{Kind: "str", Op: 1, S: hx(`\ud800`)},  // panicked before d9436d51b (RuneLen = -1)
+			{Kind: "str", Op: 1, S: hx(`"\ud83d\ude00"`)},
+			{Kind: "sql", Law: "raw", Args: []string{`SELECT JSON_UNQUOTE('"\\ud83d\\ude00"')`, `SELECT JSON_UNQUOTE('\\u123')`, `SELECT JSON_UNQUOTE('\\ud800')`}},
 			{Kind: "str", Op: 1, S: hx(`"😀"`)},
-			{Kind: "str", Op: 2, S: hx(`a\`)},      // known: index out of range
+			{Kind: "str", Op: 2, S: hx(`a\`)},      // panicked before d9436d51b (index out of range)
 			{Kind: "str", Op: 2, S: hx(`\u123`)},
 			{Kind: "str", Op: 2, S: hx(`\udc00`)},
 			{Kind: "str", Op: 1, S: hx(`a\`)},
